@@ -221,12 +221,12 @@ fn parse_order(cx: &mut Ctx, src: &sm::Src) {
             cx.fail(rule, &format!("{}/{}", rule, k), &src.rel, "`%%` is not turned into a literal percent");
         }
     }
-    if t.matches("returnErr(CFormatError{typ:CFormatErrorType::IncompleteFormat,index:index+1,});").count() == 2 {
+    if t.matches("returnErr(CFormatError{typ:CFormatErrorType::IncompleteFormat,index:index+1,})").count() == 2 {
         cx.ok(rule, "a trailing `%` is IncompleteFormat at index + 1 (text and bytes)");
     } else {
         cx.fail(rule, &format!("{}/incomplete", rule), &src.rel, "a trailing `%` is not reported as IncompleteFormat at index + 1 in both splitters");
     }
-    if t.contains("matchchars.next().map(|x|x.1){Some('%')=>{},_=>{returnErr((CFormatErrorType::MissingModuloSign,1));},}") {
+    if t.contains("matchchars.next().map(|x|x.1){Some('%')=>{},_=>returnErr((CFormatErrorType::MissingModuloSign,1)),}") {
         cx.ok(rule, "CFormatSpec::from_str requires the leading `%`");
     } else {
         cx.fail(rule, &format!("{}/modulo", rule), &src.rel, "CFormatSpec::from_str does not require the leading `%`");
